@@ -9,6 +9,7 @@ import (
 
 	"cosmossdk.io/math"
 	sdk "github.com/cosmos/cosmos-sdk/types"
+	vestingtypes "github.com/cosmos/cosmos-sdk/x/auth/vesting/types"
 	banktypes "github.com/cosmos/cosmos-sdk/x/bank/types"
 
 	ammtypes "github.com/elys-network/elys/x/amm/types"
@@ -497,6 +498,13 @@ func (d *Driver) Apply(s Step) bool {
 			ev.Args["route"], ev.Args["denoms"] = routeStrs(pids), strs(denoms)
 			d.queue(user, ev, &ammtypes.MsgSwapExactAmountOut{Sender: d.addr(user), Routes: routes, TokenOut: tokenOut, TokenInMaxAmount: maxIn, Recipient: d.addr(rcpt)})
 		}
+		return true
+
+	case "lockAccount": // anybody may create a permanently locked vesting account at an address that has no account yet
+		amt, _ := math.NewIntFromString(s.S("amt"))
+		ev := newEvent("vesting.MsgCreatePermanentLockedAccount", user)
+		ev.Args["to"], ev.Args["denom"], ev.Args["amt"] = s.S("to"), s.S("d"), amt.String()
+		d.queue(user, ev, &vestingtypes.MsgCreatePermanentLockedAccount{FromAddress: d.addr(user), ToAddress: d.addr(s.S("to")), Amount: sdk.NewCoins(sdk.NewCoin(s.S("d"), amt))})
 		return true
 
 	case "send": // bank send (a "donation" when the target is a protocol address)
